@@ -1,5 +1,7 @@
 package main
 
+import "strings"
+
 // Fixed witnesses of the defects found with this check (run first, forever).
 
 type witness struct {
@@ -23,6 +25,14 @@ func pathOf(ns string, v uint64, es []Elem, extra ...Tag) Feat {
 
 func ref(ns string, v uint64) Elem { return Elem{IsRef: true, R: ID{0, ns, v}} }
 func ll(lat, lng int32) Elem       { return Elem{P: LL{lat, lng}} }
+
+func sq(lat, lng, rad float64) [][2]float64 {
+	return [][2]float64{{lat - rad, lng - rad}, {lat - rad, lng + rad}, {lat + rad, lng + rad}, {lat + rad, lng - rad}}
+}
+
+func tinyLoop(lat, lng float64) [][2]float64 {
+	return [][2]float64{{lat + 1e-9, lng + 1e-9}, {lat + 1e-9, lng + 3e-9}, {lat + 3e-9, lng + 2e-9}}
+}
 
 func corpus() []witness {
 	square := []Feat{
@@ -61,6 +71,15 @@ func corpus() []witness {
 			Feat{ID: ID{2, "custom", 3}, Polys: []Poly{{Paths: []ID{{1, "custom", 3}}}}},
 			pathOf(nsWay, 12, []Elem{ref(nsNode, 1), ref(nsNode, 4), ref(nsNode, 3), ref(nsNode, 2), ref(nsNode, 1)}),
 			Feat{ID: ID{2, nsWay, 12}, Polys: []Poly{{Paths: []ID{{1, nsWay, 12}}}}})},
+		// explicit polygons whose first / middle / last loop collapses to one point at E7 precision, one with a
+		// hole: FromS2Polygon must drop exactly those loops and keep the boundaries of the others
+		{"tiny-loops", with(
+			Feat{ID: ID{2, "custom", 20}, Polys: []Poly{finishPoly(Poly{Raw: [][][2]float64{tinyLoop(51.7, -0.12), sq(51.7, -0.10, 0.0009), sq(51.7, -0.08, 0.0009)}})}},
+			Feat{ID: ID{2, "custom", 21}, Polys: []Poly{finishPoly(Poly{Raw: [][][2]float64{sq(51.8, -0.12, 0.0009), tinyLoop(51.8, -0.10), sq(51.8, -0.08, 0.0009), sq(51.8, -0.08, 0.0003)}})}},
+			Feat{ID: ID{2, "custom", 22}, Polys: []Poly{finishPoly(Poly{Raw: [][][2]float64{sq(51.9, -0.12, 0.0009), tinyLoop(51.9, -0.10)}}), {Paths: []ID{{1, nsWay, 10}}}}},
+			loop)},
+		// a point whose record (and scratch bucket) is longer than 64 KB
+		{"heavy-point", with(pt(nsNode, 70, 515400000, -1000000, str("note", strings.Repeat("0123456789abcdef", 4400))))},
 		// KNOWN FINDING fid-tag-value: a tag whose value is a single feature id has no value type in the
 		// index; reading it back panics while the search index is built (fatal)
 		{"feature-id-tag-value", with(pt(nsNode, 9, 515200000, -1000000, Tag{K: "b6:ref", V: Val{Kind: 'f', F: ID{0, nsNode, 1}}}))},
